@@ -70,15 +70,22 @@ theorem pj_eq_infinity (P : PJ) : pjEqInf P = PJ_eq_ret0 P.y P.z := by
 
 /-- the cross-multiplied comparison, with `zz1`, `zz2` as the source computes them -/
 theorem pj_eq_coords (p x1 y1 z1 x2 y2 z2 : Int) :
-    coordsEq p x1 y1 z1 x2 y2 z2 = PJ_eq_ret3 x1 (PJ_eq_let5 z2 p) x2 (PJ_eq_let4 z1 p) p y1 z2 y2 z1 := by
-  unfold coordsEq PJ_eq_ret3 PJ_eq_let4 PJ_eq_let5 pmod; grind
+    coordsEq p x1 y1 z1 x2 y2 z2 = PJ_eq_ret4 x1 (PJ_eq_let5 z2 p) x2 (PJ_eq_let4 z1 p) p y1 z2 y2 z1 := by
+  unfold coordsEq PJ_eq_ret4 PJ_eq_let4 PJ_eq_let5 pmod; grind
+
+/-- the identity test in front of the comparison (fix F13): a point with Y = 0 or Z = 0 is the point at infinity and
+equals exactly the other such points -/
+theorem pj_eq_identity (p x1 y1 z1 x2 y2 z2 : Int) :
+    eqCoords p x1 y1 z1 x2 y2 z2 =
+      (if PJ_eq_if4 y1 z1 y2 z2 then PJ_eq_ret3 y1 z1 y2 z2 else coordsEq p x1 y1 z1 x2 y2 z2) := by
+  unfold eqCoords PJ_eq_if4 PJ_eq_ret3; grind
 
 /-- a legacy `Point` operand is compared as `(other.x(), other.y(), 1)`, a `PointJacobi` by its coordinates; a
 different curve gives `False` before any arithmetic -/
 theorem pj_eq_dispatch (P : PJ) (A : AffPt) (Q : PJ) :
     pjEq P .infinity = PJ_eq_ret0 P.y P.z
-    ∧ pjEq P (.aff A) = (if !(P.curve.eqv A.curve) then false else coordsEq P.curve.p P.x P.y P.z A.x A.y 1)
-    ∧ pjEq P (.jac Q) = (if !(P.curve.eqv Q.curve) then false else coordsEq P.curve.p P.x P.y P.z Q.x Q.y Q.z) :=
+    ∧ pjEq P (.aff A) = (if !(P.curve.eqv A.curve) then false else eqCoords P.curve.p P.x P.y P.z A.x A.y 1)
+    ∧ pjEq P (.jac Q) = (if !(P.curve.eqv Q.curve) then false else eqCoords P.curve.p P.x P.y P.z Q.x Q.y Q.z) :=
   ⟨pj_eq_infinity P, rfl, rfl⟩
 
 /-! ### `x()`, `y()`, `scale()`, `to_affine()`, `from_affine()` -/
